@@ -150,6 +150,10 @@ pub trait RandomProp: Prop {
     fn strategy(env: &Env) -> BoxedStrategy<Self::Case>;
     /// total number of cases over all workers
     fn cases(env: &Env) -> u64;
+    /// shrink budget; lower it for sub-checks whose single evaluation is expensive
+    fn max_shrink_iters() -> u32 {
+        4_000
+    }
 }
 
 pub trait EnumProp: Prop {
@@ -447,7 +451,7 @@ pub fn run_random<P: RandomProp>(prop_id: &str, env: &Env, known: &Known) -> Sub
                     let cfg = Config {
                         cases: per as u32,
                         failure_persistence: None,
-                        max_shrink_iters: 4_000,
+                        max_shrink_iters: P::max_shrink_iters(),
                         max_global_rejects: 1 << 20,
                         rng_algorithm: RngAlgorithm::ChaCha,
                         ..Config::default()
